@@ -35,6 +35,35 @@ def work(item):
     for fn in fns:
         for kinds, args in apisweep.sweep(h, desc, vals, fn, budget, quick):
             plan.append((fn, kinds, args))
+    # diffraction functions have an argument-dependent threshold (the Bragg cut-off energy hc/2d of the chosen crystal and reflection) that no
+    # fixed energy list can bracket: ask the library for d first, then add energies just below / at / just above the cut-off
+    crys_fns = [fn for fn in fns if fn in ("Bragg_angle", "Q_scattering_amplitude", "Crystal_F_H_StructureFactor", "Crystal_F_H_StructureFactor_Partial")]
+    if crys_fns:
+        combos = []
+        for fn, kinds, args in plan:
+            if fn in crys_fns and isinstance(args[0], str) and args[0] != "cNULL" and tuple(args[2:5]) != (0, 0, 0) and (args[0], tuple(args[2:5])) not in combos:
+                combos.append((args[0], tuple(args[2:5])))
+        import random
+        random.Random(mix(seed, "cutoff", tag)).shuffle(combos)
+        combos = combos[:25 if quick else 200]
+        pre, _, _ = calls.run(exe, "simple", [calls.line("Crystal_dSpacing", ["crystal", "i", "i", "i"], [c, hkl[0], hkl[1], hkl[2]]) for c, hkl in combos], sdir, tag + "_d")
+        k2a = h.val.get("KEV2ANGST", 12.39841930)
+        for (c, hkl), o in zip(combos, pre):
+            pd = calls.parse(o)
+            if pd.get("err") is not None or not (pd.get("result") or "").startswith("d:"):
+                continue
+            d = calls.value(pd["result"]) if hasattr(calls, "value") else None
+            if not d or not (d > 0):
+                continue
+            ec = k2a / (2.0 * d)
+            for fn in crys_fns:
+                tmpl = next((a for f, k, a in plan if f == fn and a[0] == c), None) or next(a for f, k, a in plan if f == fn)
+                kinds = next(k for f, k, a in plan if f == fn)
+                for fac in (1 - 1e-2, 1 - 1e-6, 1 - 1e-9, 1.0, 1 + 1e-9, 1 + 1e-6, 1 + 1e-2):
+                    a = list(tmpl)
+                    a[0], a[1], a[2], a[3], a[4] = c, ec * fac, hkl[0], hkl[1], hkl[2]
+                    plan.append((fn, kinds, a))
+                    st.cls("bragg_cutoff_bracket")
     if "@error_api" in fns or tag.endswith("_0"):
         plan.append(("@error_api", ["i"], [2]))
         desc["@error_api"] = dict(ret="x", args=["int"], argnames=["code"])
